@@ -147,12 +147,14 @@ Qed.
 
 (* under the invariant rfbSendFramebufferUpdate never reads outside the framebuffer and never
    sends a rectangle (or a CopyRect source) outside the client's picture *)
-Lemma send_total st c :
-  Inv st -> In c (sClients st) -> exists r, send_client st c = Some r.
+Lemma send_total_c st c :
+  0 < sW st -> 0 < sH st -> InvC (sW st) (sH st) (fb_for st c) c ->
+  scaled_guard c = false -> exists r, send_client st c = Some r.
 Proof.
-  intros (HW & HH & _ & Hcl) Hin. rewrite Forall_forall in Hcl. destruct (Hcl c Hin) as [I S].
+  intros HW HH [I S] Hguard.
   pose proof (iWM _ _ _ _ I) as HWM. pose proof (iWC _ _ _ _ I) as HWC. pose proof (iWR _ _ _ _ I) as HWR.
-  unfold send_client. destruct (cUseNewFB c && cNewFBPending c) eqn:Esc; [eexists; reflexivity|].
+  unfold send_client, send_client_gen. rewrite Hguard.
+  destruct (cUseNewFB c && cNewFBPending c) eqn:Esc; [destruct (announced_size st c); eexists; reflexivity|].
   assert (Hsz : cPW c = sW st /\ cPH c = sH st).
   { destruct S as [?|[Ha Hb]]; [assumption|]. rewrite Ha, Hb in Esc. discriminate. }
   destruct Hsz as [Hpw Hph].
@@ -162,7 +164,7 @@ Proof.
   assert (EU2 : U2 = r_and (rgn_or U0 (r_sub (cC c) (cM c))) (cR c)) by (unfold r_and; rewrite Eand; reflexivity).
   assert (HU2 : WF U2) by (rewrite EU2; wf).
   match goal with |- context [if ?cond then _ else _] => destruct cond end; [eexists; reflexivity|].
-  unfold send_update.
+  unfold send_update_gen.
   set (C1 := r_sub (cC c) (cM c)) in *.
   assert (HC1 : WF C1) by (unfold C1; wf).
   set (UC := r_and (r_and C1 (cR c)) (rgn_offset (cR c) (cDX c) (cDY c))).
@@ -205,6 +207,13 @@ Proof.
   cbn [andb]. eexists. reflexivity.
 Qed.
 
+Lemma send_total st c :
+  Inv st -> In c (sClients st) -> scaled_guard c = false -> exists r, send_client st c = Some r.
+Proof.
+  intros (HW & HH & _ & Hcl) Hin Hguard. rewrite Forall_forall in Hcl.
+  apply send_total_c; auto.
+Qed.
+
 (* the rectangles of one message, as coordinates *)
 Definition wrect_inside (W H : Z) (w : wrect) : Prop :=
   match w with
@@ -220,8 +229,9 @@ Lemma send_rects_inside st c c' n rects :
 Proof.
   intros HI Hin Hs. pose proof HI as (HW & HH & _ & Hcl). rewrite Forall_forall in Hcl. destruct (Hcl c Hin) as [I S].
   pose proof (iWM _ _ _ _ I) as HWM. pose proof (iWC _ _ _ _ I) as HWC. pose proof (iWR _ _ _ _ I) as HWR.
-  unfold send_client in Hs. destruct (cUseNewFB c && cNewFBPending c) eqn:Esc.
-  { inversion Hs; subst. constructor; [destruct (cUseExt c); exact Logic.I|constructor]. }
+  unfold send_client, send_client_gen in Hs. destruct (scaled_guard c); [discriminate|].
+  destruct (cUseNewFB c && cNewFBPending c) eqn:Esc.
+  { destruct (announced_size st c). inversion Hs; subst. constructor; [destruct (cUseExt c); exact Logic.I|constructor]. }
   assert (Hsz : cPW c = sW st /\ cPH c = sH st).
   { destruct S as [?|[Ha Hb]]; [assumption|]. rewrite Ha, Hb in Esc. discriminate. }
   destruct Hsz as [Hpw Hph].
@@ -231,7 +241,7 @@ Proof.
   assert (HU2 : WF U2).
   { replace U2 with (r_and (rgn_or U0 (r_sub (cC c) (cM c))) (cR c)) by (unfold r_and; rewrite Eand; reflexivity). wf. }
   match type of Hs with (if ?cond then _ else _) = _ => destruct cond end; [discriminate|].
-  unfold send_update in Hs.
+  unfold send_update_gen in Hs.
   set (UC := r_and (r_and (r_sub (cC c) (cM c)) (cR c)) (rgn_offset (cR c) (cDX c) (cDY c))) in *.
   set (U3 := r_sub U2 UC) in *.
   assert (HUC : WF UC) by (unfold UC; wf).
@@ -265,8 +275,8 @@ Ltac csimpl :=
   cbn [UpdateDefs.cM UpdateDefs.cC UpdateDefs.cDX UpdateDefs.cDY UpdateDefs.cR UpdateDefs.cUseCopy
        UpdateDefs.cShape UpdateDefs.cCurChanged UpdateDefs.cReady UpdateDefs.cCurX UpdateDefs.cCurY
        UpdateDefs.cSliceY UpdateDefs.cUseNewFB UpdateDefs.cUseExt UpdateDefs.cNewFBPending
-       UpdateDefs.cReqChange UpdateDefs.cLastErr UpdateDefs.cBpp UpdateDefs.cPW UpdateDefs.cPH UpdateDefs.cPic
-       set_regions set_M set_flags set_curpos set_slice set_size_state set_pic] in *.
+       UpdateDefs.cReqChange UpdateDefs.cLastErr UpdateDefs.cBpp UpdateDefs.cPW UpdateDefs.cPH UpdateDefs.cPic UpdateDefs.cExt
+       set_regions set_M set_flags set_curpos set_slice set_size_state set_pic set_cext set_bpp] in *.
 
 (* ------------------------------------------------------------------ rfbNewFramebuffer *)
 Lemma newfb_regions st w h bpp seed :
@@ -313,25 +323,29 @@ Qed.
    exactly one size pseudo-rectangle with the new size (and reason / status), nothing else;
    afterwards the picture has the new size, nothing is pending and everything is still modified *)
 Lemma size_first st w h bpp seed c :
-  cUseNewFB c = true ->
+  cUseNewFB c = true -> cScaled c = None ->
   let st' := newfb_state st w h bpp seed in
   let c1 := newfb_client w h c in
   exists c2,
     send_client st' c1 =
       Some (c2, Some (1, [if cUseExt c then WExt (cReqChange c) (cLastErr c) w h else WNewFB w h])) /\
-    (negb (rgn_is_empty (cR c1)) = true -> tick_client st' c1 = send_client st' c1) /\
+    (negb (rgn_is_empty (cR c1)) = true -> xDefer (sExt st) = 0 -> tick_client st' c1 = send_client st' c1) /\
     cNewFBPending c2 = false /\ cPW c2 = w /\ cPH c2 = h /\
     cM c2 = rgn_create_rect 0 0 w h /\ cC c2 = rgn_empty /\ cR c2 = cR c /\
     (cUseExt c = true -> cReqChange c2 = 0 /\ cLastErr c2 = 0).
 Proof.
-  intros Hu st' c1. unfold c1, newfb_client. destruct c; csimpl; subst. csimpl.
-  unfold send_client. csimpl. cbn [andb sW sH st' newfb_state].
+  intros Hu Hsc st' c1. unfold c1, newfb_client. unfold cScaled in Hsc. destruct c; csimpl; subst. csimpl.
+  unfold send_client, send_client_gen, scaled_guard, announced_size, cScaled. csimpl. rewrite Hsc.
+  cbn [andb sW sH st' newfb_state].
   eexists. split; [reflexivity|]. split.
-  - intros HR. unfold tick_client.
+  - intros HR HD. unfold tick_client.
+    replace (xDefer (sExt st')) with 0 by (unfold st', newfb_state; cbn [sExt]; auto).
+    unfold scaled_guard, cScaled. csimpl. rewrite Hsc.
     assert (Hp : forall c0, UpdateDefs.cUseNewFB c0 = true -> UpdateDefs.cNewFBPending c0 = true -> pending st' c0 = true).
     { intros c0 Ha Hb. unfold pending. rewrite Ha, Hb. cbn [andb].
       apply orb_true_iff. left. apply orb_true_iff. left. apply orb_true_iff. right. reflexivity. }
-    rewrite Hp by reflexivity. csimpl. rewrite HR. reflexivity.
+    rewrite Hp by reflexivity. csimpl. rewrite HR. cbn [andb Z.eqb].
+    unfold send_client, send_client_gen, scaled_guard, announced_size, cScaled. csimpl. rewrite Hsc. reflexivity.
   - unfold client_resize. csimpl.
     destruct ((cPW =? w) && (cPH =? h)) eqn:E; csimpl; repeat split; try lia; destruct cUseExt; try reflexivity; discriminate.
 Qed.
@@ -368,13 +382,14 @@ Qed.
 
 (* the refusal reaches an ExtendedDesktopSize client as one pseudo-rectangle carrying it *)
 Lemma setdesktop_refusal_sent st hookres c :
-  hookres <> 0 -> cUseExt c = true -> cUseNewFB c = true ->
+  hookres <> 0 -> cUseExt c = true -> cUseNewFB c = true -> cScaled c = None ->
   exists c2, send_client st (setdesktop_one true hookres c) =
              Some (c2, Some (1, [WExt c16_reason_client hookres (sW st) (sH st)])) /\
              cNewFBPending c2 = false /\ cReqChange c2 = 0 /\ cLastErr c2 = 0.
 Proof.
-  intros Hh He Hu. unfold setdesktop_one. replace (hookres =? 0) with false by lia.
-  destruct c; cbn in He, Hu; subst. unfold send_client. cbn.
+  intros Hh He Hu Hsc. unfold setdesktop_one. replace (hookres =? 0) with false by lia.
+  unfold cScaled in Hsc. destruct c; cbn in He, Hu, Hsc; subst.
+  unfold send_client, send_client_gen, scaled_guard, announced_size, cScaled. cbn. rewrite Hsc.
   eexists. split; [reflexivity|].
   unfold client_resize. cbn. destruct ((cPW =? sW st) && (cPH =? sH st)); cbn; repeat split.
 Qed.
@@ -392,4 +407,45 @@ Proof.
   intros HI Hin Hsl Hsc HM Hs x y Hxy HR.
   apply (send_covers st c c' n rects HI Hin Hsl Hsc Hs x y); [|exact HR].
   rewrite HM, create_rect_mem. unfold rect_mem, inS in *. lia.
+Qed.
+
+(* ------------------------------------------------------------------ scaled screens (F12) *)
+(* rfbNewFramebuffer leaves the scaledScreenNext chain and the clients' scaledScreen alone *)
+Lemma newfb_keeps_scaled st w h bpp seed :
+  xChain (sExt (newfb_state st w h bpp seed)) = xChain (sExt st) /\
+  map cScaled (sClients (newfb_state st w h bpp seed)) = map cScaled (sClients st).
+Proof.
+  unfold newfb_state. cbn [sExt sClients]. split; [reflexivity|]. rewrite map_map. apply map_ext.
+  intros c. unfold newfb_client, client_resize, cScaled.
+  destruct c; csimpl. destruct cUseNewFB; csimpl; [reflexivity|].
+  destruct ((cPW =? w) && (cPH =? h)); reflexivity.
+Qed.
+
+(* FULL STATEMENT (refuted): after rfbNewFramebuffer a client that asked for scale n is told the size
+   (W'/n, H'/n) of the NEW framebuffer.  Witness: 12x8 screen, SetScale 2 (told 6x4), new
+   framebuffer 24x16: the client is told 6x4 again (and the chain still holds the 6x4 copy of the
+   old framebuffer) instead of 12x8. *)
+Definition f12_ops : list op :=
+  [OpSetCursor None; OpAddClient; OpSetEncodings 0 false true true false; OpSetScale 0 2; OpSend 0;
+   OpNewFB 24 16 4 7].
+
+Lemma scaled_stale_after_newfb :
+  exists st c c', run (init_state 12 8 4) f12_ops = Some st /\ Inv st /\
+    nth_error (sClients st) 0 = Some c /\ sW st = 24 /\ sH st = 16 /\
+    cScaled c = Some (6, 4) /\ xChain (sExt st) = [(6, 4)] /\
+    send_client st c = Some (c', Some (1, [WNewFB 6 4])) /\
+    (6, 4) <> (Z.quot (sW st) 2, Z.quot (sH st) 2).
+Proof.
+  destruct (run (init_state 12 8 4) f12_ops) as [st|] eqn:E; [|vm_compute in E; discriminate].
+  assert (HI : Inv st).
+  { apply (run_inv f12_ops (init_state 12 8 4) st); [apply init_inv; lia| |exact E].
+    unfold f12_ops.
+    repeat (split; [first [exact Logic.I | solve [cbn; repeat split; lia]] |
+                    let st' := fresh "st" in let out := fresh "out" in let Hs := fresh "Hs" in
+                    intros st' out Hs; vm_compute in Hs; inversion Hs; subst; clear Hs]).
+    exact Logic.I. }
+  vm_compute in E. inversion E; subst. clear E.
+  eexists. eexists. eexists. split; [reflexivity|]. split; [exact HI|].
+  split; [reflexivity|]. split; [reflexivity|]. split; [reflexivity|]. split; [reflexivity|].
+  split; [reflexivity|]. split; [vm_compute; reflexivity|]. vm_compute. discriminate.
 Qed.
